@@ -636,9 +636,10 @@ impl PartialEq for OrderableValue {
             (Self::String(a), Self::String(b)) => a == b,
             (Self::Bool(a), Self::Bool(b)) => a == b,
             (Self::Timestamp(a), Self::Timestamp(b)) => a == b,
-            // Cross-type numeric comparison
-            (Self::Int64(a), Self::Float64(b)) => (*a as f64) == b.0,
-            (Self::Float64(a), Self::Int64(b)) => a.0 == (*b as f64),
+            // Cross-type numeric comparison (exact, so that equality stays transitive)
+            (Self::Int64(a), Self::Float64(b)) | (Self::Float64(b), Self::Int64(a)) => {
+                cmp_i64_f64(*a, b.0) == std::cmp::Ordering::Equal
+            }
             _ => false,
         }
     }
@@ -660,14 +661,41 @@ impl Ord for OrderableValue {
             (Self::String(a), Self::String(b)) => a.cmp(b),
             (Self::Bool(a), Self::Bool(b)) => a.cmp(b),
             (Self::Timestamp(a), Self::Timestamp(b)) => a.cmp(b),
-            // Cross-type numeric comparison
-            (Self::Int64(a), Self::Float64(b)) => OrderedFloat64(*a as f64).cmp(b),
-            (Self::Float64(a), Self::Int64(b)) => a.cmp(&OrderedFloat64(*b as f64)),
+            // Cross-type numeric comparison (exact: no rounding of the integer to f64)
+            (Self::Int64(a), Self::Float64(b)) => cmp_i64_f64(*a, b.0),
+            (Self::Float64(a), Self::Int64(b)) => cmp_i64_f64(*b, a.0).reverse(),
             // Different types: order by type ordinal for consistency
             // Order: Bool < Int64 < Float64 < String < Timestamp
             _ => self.type_ordinal().cmp(&other.type_ordinal()),
         }
     }
+}
+
+/// 2^63 as an `f64` (exactly representable).
+const TWO_POW_63: f64 = 9_223_372_036_854_775_808.0;
+
+/// Compares an `i64` with an `f64` exactly, under [`OrderedFloat64`]'s total order
+/// (NaN is greater than everything).
+fn cmp_i64_f64(a: i64, b: f64) -> std::cmp::Ordering {
+    use std::cmp::Ordering;
+    if b.is_nan() || b >= TWO_POW_63 {
+        return Ordering::Less;
+    }
+    if b < -TWO_POW_63 {
+        return Ordering::Greater;
+    }
+    // -2^63 <= b < 2^63: the integral part converts to i64 without loss
+    let whole = b.trunc();
+    match a.cmp(&(whole as i64)) {
+        // same integral part: the fraction decides
+        Ordering::Equal => whole.partial_cmp(&b).unwrap_or(Ordering::Equal),
+        ord => ord,
+    }
+}
+
+/// Returns the integer a float is exactly equal to, if there is one.
+fn exact_i64(f: f64) -> Option<i64> {
+    (f >= -TWO_POW_63 && f < TWO_POW_63 && f.trunc() == f).then(|| f as i64)
 }
 
 impl OrderableValue {
@@ -685,6 +713,12 @@ impl OrderableValue {
 
 impl Hash for OrderableValue {
     fn hash<H: Hasher>(&self, state: &mut H) {
+        // A float that equals an integer must hash like that integer (`1 == 1.0`)
+        if let Self::Float64(f) = self
+            && let Some(i) = exact_i64(f.0)
+        {
+            return Self::Int64(i).hash(state);
+        }
         std::mem::discriminant(self).hash(state);
         match self {
             Self::Int64(i) => i.hash(state),
